@@ -11,7 +11,7 @@ class Ctx:
         self.R = R
         self.tier = tier
         self.cache = {}
-        self.max_depth = 8 if tier == 'thorough' else 6
+        self.max_depth = 20     # recursion guard only: the crate has no recursive functions, wrappers and closures add frames
 
     # ---- locating public API items without depending on lifetime names or private paths
     def method(self, self_ty, name, trait=None):
